@@ -425,6 +425,11 @@ T_C18_Counters ==
   e.k = "final" => \A n \in 1..NN : LET g == F.nd[n] o == e.nodes[n] IN
      /\ o.gen = g.gen /\ o.disc = g.disc /\ o.recv = Cardinality({x \in 1..Len(F.it) : F.it[x].pl = <<"sink", n>>})
      /\ (Node(n).type \in {"machine", "splitter", "combiner"}) => o.proc = Len(g.pushes)
+\* ... and at the end of every instant of the run, not only at the horizon (a report may be taken at any time)
+T_C18_CountersEOI ==
+  e.k = "eoi" => \A n \in 1..NN : LET g == F.nd[n] o == e.nodes[n] IN
+     /\ o.gen = g.gen /\ o.disc = g.disc /\ o.recv = Cardinality({x \in 1..Len(F.it) : F.it[x].pl = <<"sink", n>>})
+     /\ (Node(n).type \in {"machine", "splitter", "combiner"}) => o.proc = Len(g.pushes)
 T_C18_CounterEvents ==
   [][(e'.k = "ctr" /\ e'.key = "gen") => e'.val = F.nd[e'.n].gen]_vars
 T_C18_AvgOccupancy ==
